@@ -278,11 +278,39 @@ def _apply_affine(affine: Affine2D, s: SVGPath) -> SVGPath:
     return s_prime
 
 
+def _maps_arcs_faithfully(affine: Affine2D, path: SVGPath) -> bool:
+    """True if _affine_callback's treatment of arcs describes their true image.
+
+    _affine_callback maps arc end points, scales the radii by the length of the
+    basis vectors and keeps x-axis-rotation and flags. That is the image of the
+    arc only for orientation preserving transforms that are either a uniform
+    scale (plus any rotation, if the arc is circular) or an axis aligned scale of
+    an arc whose own axes are aligned too.
+    """
+    arcs = [args for cmd, args in path if cmd.upper() == "A"]
+    if not arcs:
+        return True
+    a, b, c, d = affine[:4]
+    if affine.determinant() <= 0:
+        return False  # mirrored (or degenerate): sweep would have to flip
+    axis_aligned = almost_equal(b, 0) and almost_equal(c, 0)
+    similarity = almost_equal(a, d) and almost_equal(b, -c)
+    for rx, ry, x_rotation, *_ in arcs:
+        if similarity and (axis_aligned or almost_equal(rx, ry)):
+            continue
+        if axis_aligned and almost_equal(x_rotation % 180, 0):
+            continue
+        return False
+    return True
+
+
 def _try_affine(
     affine: Affine2D, s1: SVGPath, s2: SVGPath, tolerance: float, comment: str
 ):
     s1_prime = _apply_affine(affine, s1)
-    return s1_prime.almost_equals(s2, tolerance)
+    return s1_prime.almost_equals(s2, tolerance) and _maps_arcs_faithfully(
+        affine, s1
+    )
 
 
 def _round(affine, s1, s2, tolerance):
